@@ -317,6 +317,38 @@ func runC15(c *Ctx) {
 		c.count("root_" + t.kind)
 		c.count(fmt.Sprintf("reset_%v", useReset))
 	}
+	// deep nesting: chains of containers well beyond any fixed-size bookkeeping (bit sets, small
+	// arrays), with a member / element AFTER the deep child at every level so that every enclosing
+	// container's state is needed again on the way out
+	for _, depth := range []int{9, 15, 16, 17, 31, 32, 33, 34, 63, 64, 65, 66, 100, 129, 200} {
+		for variant := 0; variant < 3; variant++ {
+			var t *jnode = &jnode{kind: "int", i: int64(depth)}
+			for l := 0; l < depth; l++ {
+				asObj := variant == 0 || (variant == 2 && l%2 == 0)
+				if asObj {
+					t = &jnode{kind: "obj", kids: []*jnode{{kind: "bool", b: true}, t, {kind: "str", s: "after"}}, names: []string{"b", "child", "z"}}
+				} else {
+					t = &jnode{kind: "arr", kids: []*jnode{t, {kind: "int", i: int64(l)}}}
+				}
+			}
+			var o plenccodec.JSONOutput
+			t.emit(&o)
+			out := o.Done()
+			desc := fmt.Sprintf("deep nesting depth=%d variant=%d -> %q", depth, variant, trunc(string(out), 80))
+			dec := json.NewDecoder(bytes.NewReader(out))
+			dec.UseNumber()
+			var parsed any
+			if err := dec.Decode(&parsed); err != nil {
+				c.native = append(c.native, NativeViolation{Case: desc, What: "output is not valid JSON: " + err.Error(), Class: "invalid-json"})
+			} else if !sameJSON(t.expect(), parsed) {
+				c.native = append(c.native, NativeViolation{Case: desc, What: "parse differs from the call tree", Class: "wrong-json"})
+			}
+			if depth <= 9 {
+				c.add(fmt.Sprintf("K15Tree %s %s", t.coqTree(), coqBytes(out)), desc, fmt.Sprintf("deep/%d/%d", depth, variant), true)
+			}
+			c.count("deep_nesting")
+		}
+	}
 	// every byte value as a string and as a member name
 	for b := 0; b < 256; b++ {
 		ch := string([]byte{byte(b)})
